@@ -85,6 +85,9 @@ def o_fit(name):
             for inp in O.gen_fit_inputs(rng, n, max_N=max_N, combos=combos):
                 if confine and rng.random() < 0.3:
                     inp["confine"] = True
+                elif rng.random() < 0.3:
+                    inp["freeze_atom"] = rng.randrange(64)
+                    inp["n_snap"] = int(inp["n_snap"]) * 3          # still (usually) determined
                 yield inp
         return O.run_oracle(name, gen())
     f.__name__ = "o_" + name
